@@ -185,9 +185,9 @@ func (n *N) json(b *bytes.Buffer) {
 		first := true
 		var emit func(m *N)
 		emit = func(m *N) {
+			m = flattenMerges(m) // JSON has no merge keys: the merged pairs are written in place
 			for i, k := range m.Keys {
 				if k == "<<" && m.Vals[i].Merge {
-					emit(m.Vals[i]) // JSON has no merge keys: the merged pairs are written in place
 					continue
 				}
 				if !first {
@@ -606,12 +606,17 @@ func match(exp, got *N, path string) string {
 	return ""
 }
 
-// flattenMerges returns the mapping with inline merge sources written in place.
+// flattenMerges returns the mapping with inline merge sources written in place,
+// with YAML merge semantics: explicit keys beat merged keys, earlier merged keys
+// beat later ones, merged keys stand where the merge key stood.
 func flattenMerges(n *N) *N {
 	has := false
+	explicit := map[string]bool{}
 	for i, k := range n.Keys {
 		if k == "<<" && n.Vals[i].Merge {
 			has = true
+		} else {
+			explicit[k] = true
 		}
 	}
 	if !has {
@@ -622,8 +627,14 @@ func flattenMerges(n *N) *N {
 	for i, k := range n.Keys {
 		if k == "<<" && n.Vals[i].Merge {
 			f := flattenMerges(n.Vals[i])
-			cp.Keys = append(cp.Keys, f.Keys...)
-			cp.Vals = append(cp.Vals, f.Vals...)
+			for j, fk := range f.Keys {
+				if explicit[fk] {
+					continue
+				}
+				explicit[fk] = true
+				cp.Keys = append(cp.Keys, fk)
+				cp.Vals = append(cp.Vals, f.Vals[j])
+			}
 			continue
 		}
 		cp.Keys = append(cp.Keys, k)
